@@ -22,3 +22,23 @@ func GoodRepack(g *image.Gray) []byte {
 	}
 	return out
 }
+
+// ChromaFastPath indexes the chroma planes itself and knows two sampling layouts only
+// (SUBSAMPLE control: 4:4:0, 4:1:1 and 4:1:0 fall into the 4:4:4 default).
+func ChromaFastPath(img *image.YCbCr, x, y int) (cb, cr byte) {
+	sx, sy := 0, 0
+	switch img.SubsampleRatio {
+	case image.YCbCrSubsampleRatio422:
+		sx = 1
+	case image.YCbCrSubsampleRatio420:
+		sx, sy = 1, 1
+	}
+	ci := (y>>sy)*img.CStride + (x >> sx)
+	return img.Cb[ci], img.Cr[ci]
+}
+
+// ChromaByOffset lets the image package compute the chroma offset (discharged).
+func ChromaByOffset(img *image.YCbCr, x, y int) (cb, cr byte) {
+	ci := img.COffset(x, y)
+	return img.Cb[ci], img.Cr[ci]
+}
